@@ -15,7 +15,7 @@ import pymbolic.mapper as mapmod
 
 from ..core import check, short
 from ..gen import expr as G
-from ..gen import scale
+from ..gen import numbers, scale
 from ..mon import streams
 from ..mon.trace import HandlerTrace
 from ..mon.typedkeys import KF_TWINS, has_twins, refkeys, typed
@@ -300,6 +300,51 @@ def c_stream(ctx, case):
         streams.each(ctx, stream_rows(seed, n), judge)
 
 
+def _strict_same(got, want):
+    """outcomes agree INCLUDING the kind of number (int / float / np.int32 / ...), the sign of
+    zero and NaN-ness; exceptions by class"""
+    if got[0] != want[0]:
+        return False
+    if got[0] != "v":
+        return got[1] == want[1]
+    a, b = got[1], want[1]
+    if isinstance(a, (tuple, list, np.ndarray)) or isinstance(b, (tuple, list, np.ndarray)):
+        return refsem.values_equal(a, b)
+    try:
+        return numbers.same_kind_and_value(a, b)
+    except Exception:  # noqa: BLE001
+        return False
+
+
+@check("C02.kinds")
+def c_kinds(ctx, case):
+    """Every kind of number as a constant and as a variable's value: numpy scalars (they wrap
+    around, round to float32, negate logically), complex, bools, integer-valued floats,
+    negative zero, infinities, NaN, ints no double holds, and values whose product does not
+    commute.  The evaluator's outcome is the plain computation's, down to the kind of the
+    result (9 is not 9.0; 1e10 is not 1410065408) and the class of the error."""
+    e, env = case
+    import warnings
+    with warnings.catch_warnings():
+        warnings.simplefilter("ignore")     # numpy's overflow / invalid-value warnings
+        want = refsem.outcome(lambda: refsem.ev(e, env), UNK)
+        for name, fn in variants(True):
+            if name == "evaluate_kw" and any(not isinstance(k, str) for k in env):
+                continue
+            got = refsem.outcome(lambda: fn(e, env), UNK)
+            ctx.case(None)
+            ctx.count("kinds:" + name)
+            if not _strict_same(got, want):
+                ctx.fail("C02.kinds", case, f"{name}:{type(e).__name__}:{got[0]}!={want[0]}"
+                         if got[0] != want[0] else f"{name}:{type(e).__name__}:kind-or-value",
+                         f"variant={name} expr={G.src(e)} env={ {k: v for k, v in env.items() if k in 'xyz'} }: "
+                         f"got {short(got)} [{numbers.kind_of(got[1]) if got[0] == 'v' else ''}], the "
+                         f"plain computation gives {short(want)} "
+                         f"[{numbers.kind_of(want[1]) if want[0] == 'v' else ''}]",
+                         finding=twin_finding([e], lambda w: _strict_same(
+                             refsem.outcome(lambda: dict(variants(True, w))[name](e, env), UNK), want)))
+
+
 def inject_fault(rng, e, kind):
     """Replace one leaf occurrence by a faulty node; returns new tree or None."""
     leaves = []
@@ -456,6 +501,43 @@ def workload(ctx):
                 ctx.count("long_chains")
                 env = G.base_env(rng.choice([-2, 1, 2, 3]), rng.choice([-2, 1, 3]), 1)
                 ctx.run("C02.eval", (e, env, True))
+        # 4d. kinds of numbers: every binary / unary / n-ary operator over every pair of kinds,
+        #     one operand a constant of the tree, the other a variable's value (or both either)
+        binops = [p.Power, p.Quotient, p.FloorDiv, p.Remainder, lambda a, b: p.Sum((a, b)),
+                  lambda a, b: p.Product((a, b)), lambda a, b: p.Comparison(a, "<", b),
+                  lambda a, b: p.Comparison(a, "==", b), p.LeftShift, lambda a, b: p.BitwiseAnd((a, b)),
+                  lambda a, b: p.Min((a, b)), lambda a, b: p.If(p.Comparison(a, "!=", 0), a, b),
+                  lambda a, b: p.Sum((p.Product((a, a)), p.BitwiseNot(b))),
+                  lambda a, b: p.Product((p.CommonSubexpression(p.Power(a, b)), 2))]
+        kinds = list(numbers.KINDS)
+        for k1 in kinds:
+            for k2 in kinds:
+                if not ctx.mine("kinds"):
+                    continue
+                for mk in rng.sample(binops, 5):
+                    a, b = rng.choice(numbers.KINDS[k1]), rng.choice(numbers.KINDS[k2])
+                    how = rng.randrange(4)
+                    if isinstance(a, F):
+                        how |= 1    # (Fraction is not a registered constant class: as a
+                    if isinstance(b, F):    # value only, a tree may not hold one)
+                        how |= 2
+                    e = mk(X if how & 1 else a, Y if how & 2 else b)
+                    env = G.base_env(a, b, 1)
+                    ctx.case(("kinds", k1, k2, how, G.src(e)), True, n=0)
+                    ctx.count("kind_pairs")
+                    ctx.run("C02.kinds", (e, env))
+        ctx.set_exhaustive("(kind of number, kind of number) over 19 kinds")
+        # ... and values whose product does not commute (matrices): operands in operand order
+        from .c03 import Mat2
+        for i in range(ctx.per_shard(ctx.pick(60, 600))):
+            ms = [Mat2(*[rng.randint(-2, 3) for _ in range(4)]) for _ in range(3)]
+            env = G.base_env(*ms)
+            for e in (p.Product((X, Y, Z)), p.Product((Y, p.Product((X, Z)), X)),
+                      p.Sum((p.Product((X, Y)), p.Product((-1, Y, X)))),
+                      p.Product((2, X, Y, 3)), p.Power(p.Product((X, Y)), 2),
+                      p.Product((X, p.Sum((Y, Z)), Y))):
+                ctx.count("noncommuting_products")
+                ctx.run("C02.kinds", (e, env))
         # 5. containers at top level (plain evaluator), NaN nodes
         for i in range(ctx.per_shard(ctx.pick(200, 4000))):
             gen.pool = {"int": [], "num": [], "bool": []}
@@ -535,6 +617,8 @@ def workload(ctx):
     ctx.floor("effect_reads", 500)
     ctx.floor("effect_calls", 100)
     ctx.floor("wide_nodes", 200)
+    ctx.floor("kind_pairs", 1500)
+    ctx.floor("noncommuting_products", 300)
     ctx.floor("long_chains", 100)
     ctx.floor("stream:rows", 500)
     ctx.floor("stream:row_address_reused", 100)
